@@ -62,6 +62,9 @@ func readerBody(pr rParams, f *rdr.File, r *rRun) func() {
 			rd.SetCache(rdr.NewCache(pr.Cache, pr.Cap))
 		}
 		for _, op := range pr.Ops {
+			// the caller's goroutine can be descheduled between two API calls even when the
+			// calls themselves perform no synchronisation (ReadByte inside one block)
+			vsched.Yield()
 			r.obs = append(r.obs, rObs{op, rdr.Do(f, rd, op)})
 		}
 		r.closeErr = rd.Close()
